@@ -504,7 +504,7 @@ def _reader_check(then, toks, variant, nfields, field_tys):
     return probs, env, blk, ev_let, ev_expr
 
 
-@rule("C19", "C19.d.memory-location-grammar", floor=3)
+@rule("C19", "C19.d.memory-location-grammar", floor=4)
 def c19d(F, R):
     """the hand-written MemoryLocation text format round-trips: interpreting the reader's split/parse steps over the writer's format pieces returns every field, with its sign and full range"""
     sp = F.method(MEMLOC, "serialize", trait_ref=r"ser::Serialize")
@@ -530,6 +530,16 @@ def c19d(F, R):
                     b = [x["name"] for x in walk(c["pat"]) if x.get("k") == "PBinding"]
                     branches[lit_value(init["args"][0])] = (b[0], n["then"])
     adt = F.adt(MEMLOC)
+    # every string the writer emits comes from an arm of the template table that is interpreted below: a second path (a fast
+    # path with precomputed keys, an early return) writes text that nothing relates to the reader
+    wf = F.fn(sp)
+    in_table = {id(x) for x in walk(sm, pats=False)}
+    emits = [m for m in walk(wf["hir"]["value"], pats=False) if m.get("k") == "MethodCall" and m["name"].startswith("serialize_")]
+    outside = [m for m in emits if id(m) not in in_table]
+    if outside:
+        R.bad("writer|outside-the-template-table", f"Serialize for MemoryLocation emits text through `{ekey(outside[0])[:60]}` outside its per-variant `format!` table: keys written on that path are not derived from the field by the template the reader inverts (two locations can share one key, or a key can load back as another location)", loc(outside[0]))
+    else:
+        R.ok("writer|single-table", detail=f"all {len(emits)} emissions are arms of the per-variant template table", where=loc(sm))
     for v, arm in arm_table(sm):
         if v == "_":
             continue
